@@ -5,4 +5,5 @@ import "go.uber.org/thriftrw/internal/zzsim/world/orderw"
 func init() {
 	Engines["C07"] = Engine{Run: orderw.RunC07}
 	Engines["C10"] = Engine{Run: orderw.RunC10}
+	Engines["C20"] = Engine{Run: orderw.RunC20}
 }
